@@ -7,9 +7,6 @@
      kind 20  C05-lost-named-limit   a named limit of the new configuration is missing because a
               limit of the same user/group on an ancestor queue was dropped by the same reload
               and the tracker below that ancestor ran no application (unlink removes it);
-     kind 21  C05-stale-wildcard     a user keeps the wild card limit of the previous
-              configuration: the wild card was dropped from a queue that has named user limits
-              in the old and in the new configuration;
      kind 14  C05-group-reset-usage  group usage differs from the live allocations after a
               reload dropped a limit of that group (usage and application links are wiped,
               also for applications that are still running);
@@ -56,19 +53,6 @@ Definition lost_named (prev conf : qconf) (s : ugm_state) (w : who) (h : path) :
   named_in conf w h && unlinkable s w h &&
   existsb (fun h' => named_in prev w h' && negb (named_in conf w h') && unlinkable s w h') (strict_prefixes h).
 
-(* C05-stale-wildcard *)
-Definition stale_wild (conf : qconf) (s s' : ugm_state) (w : who) (h : path) : bool :=
-  match w with
-  | User u =>
-      negb (named_in conf w h) && negb (wild_in conf h) &&
-      has_path (userLimits s) h && has_path (userLimits s') h &&
-      match plookup (userWild s) h, node s' w h with
-      | Some cfg, Some q => q_wild q && nlimit_eqb (norm_limit (q_max q) (q_maxApps q)) (norm_limit (l_max cfg) (l_apps cfg))
-      | _, _ => false
-      end
-  | Group _ => false
-  end.
-
 Definition who_eqb (a b : who) : bool :=
   match a, b with User x, User y => x =? y | Group x, Group y => x =? y | _, _ => false end.
 
@@ -91,7 +75,6 @@ Definition limit_kind_at_reload (t : taint) (prev : option qconf) (conf : qconf)
   | None => 5
   | Some pc =>
       if lost_named pc conf s w h then 20
-      else if stale_wild conf s s' w h then 21
       else match excused_kind t w h with
            | Some k => if nlimit_eqb (in_force s' w h) (in_force s w h) && nlimit_eqb (spec_limit conf w h) (spec_limit pc w h)
                        then k else 5
